@@ -778,6 +778,11 @@ def run(ctx):
         sym = c["first"]["symptom"]
         if not sym.startswith(("survivor-hang", "victim-hang", "cleaner-hang", "survivor-died", "node-never-clean")):
             continue
+        nconf = sum(1 for x in classes.values() if "confirmed" in x)
+        if nconf >= int(os.environ.get("C04_MAX_CONFIRM", "10")):
+            c["confirmed"] = False
+            ctx.notes.append("class %s (%d cases): timing-sensitive symptom not re-run (confirmation cap reached), not reported" % (key, c["count"]))
+            continue
         a = c["first"]["args"]
         old = (PHASE_TIMEOUT, VICTIM_TIMEOUT)
         PHASE_TIMEOUT, VICTIM_TIMEOUT = 3 * old[0], 3 * old[1]
